@@ -110,6 +110,8 @@ impl RpuInjector {
         stdout().flush().ok();
 
         let chunk_size = 100_000;
+        #[cfg(feature = "verif_hooks")]
+        let chunk_size = super::verif_chunk_size("DOVI_TOOL_VERIF_CHUNK_SIZE", chunk_size);
 
         let mut processor =
             HevcProcessor::new(IoFormat::Raw, HevcProcessorOpts::default(), chunk_size);
@@ -147,6 +149,8 @@ impl RpuInjector {
         self.progress_bar = super::initialize_progress_bar(&IoFormat::Raw, &self.input)?;
 
         let chunk_size = 100_000;
+        #[cfg(feature = "verif_hooks")]
+        let chunk_size = super::verif_chunk_size("DOVI_TOOL_VERIF_CHUNK_SIZE", chunk_size);
 
         let mut processor =
             HevcProcessor::new(IoFormat::Raw, HevcProcessorOpts::default(), chunk_size);
